@@ -1,11 +1,14 @@
 package meta
 
 import (
+	"bytes"
 	"errors"
 	"fmt"
+	"slices"
 
 	"github.com/nspcc-dev/bbolt"
 	cid "github.com/nspcc-dev/neofs-sdk-go/container/id"
+	"github.com/nspcc-dev/neofs-sdk-go/object"
 	oid "github.com/nspcc-dev/neofs-sdk-go/object/id"
 )
 
@@ -132,14 +135,35 @@ func (db *DB) GetGarbage(limit int) ([]TrashBin, error) {
 }
 
 func listGarbageObjects(cur *bbolt.Cursor, prefix byte, cnr cid.ID, limit int) []oid.ID {
-	var objs []oid.ID
+	var (
+		objs      []oid.ID
+		lookup    = cur.Bucket().Cursor()
+		removable int
+	)
 
 	for obj := range iterPrefixedIDs(cur, []byte{prefix}, oid.ID{}) {
-		if len(objs) >= limit {
+		if removable >= limit {
 			break
+		}
+		// Delete refuses non-physical entries (they are removed along
+		// with their last part), so they must not take the place of
+		// removable objects in the batch: otherwise enough of them at
+		// the beginning of the list stop garbage collection forever.
+		if !isNonPhysicalEntry(lookup, obj) {
+			removable++
 		}
 		objs = append(objs, obj)
 	}
 
 	return objs
+}
+
+// isNonPhysicalEntry checks whether id is indexed without being stored itself
+// (e.g. parent of split or EC objects).
+func isNonPhysicalEntry(c *bbolt.Cursor, id oid.ID) bool {
+	var idKey = slices.Concat([]byte{metaPrefixID}, id[:])
+
+	k, _ := c.Seek(idKey)
+
+	return bytes.Equal(k, idKey) && getObjAttribute(c, id, object.FilterPhysical) == nil
 }
